@@ -1263,6 +1263,56 @@ func retireRule(c *core.Ctx, p *core.Prog, typeName, resType, relMethod string) 
 					}
 				}
 			}
+			if !onMiss {
+				// the dropping loop may live in a helper (`p.retireStreamProducers(payloadType)`): the miss is then tested
+				// where the helper is called — at every call site
+				var missAt func(f *ssa.Function, at ssa.Instruction) bool
+				missAt = func(f *ssa.Function, at ssa.Instruction) bool {
+					for _, blk := range f.Blocks {
+						iff := core.IfOf(blk)
+						if iff == nil {
+							continue
+						}
+						if cmp, ok := iff.Cond.(*ssa.BinOp); ok && (cmp.Op == token.EQL || cmp.Op == token.NEQ) && core.GuardedBy(iff, cmp.Op == token.EQL, at) {
+							x := cmp.X
+							if core.IsNilConst(x) {
+								x = cmp.Y
+							}
+							if core.IsNilConst(cmp.Y) || core.IsNilConst(cmp.X) {
+								if lk, ok := core.Canon(x).(*ssa.Lookup); ok && isSCMap(lk.X) == mf {
+									return true
+								}
+							}
+						}
+						cond, arm := iff.Cond, true
+						if u, ok := cond.(*ssa.UnOp); ok && u.Op == token.NOT {
+							cond, arm = u.X, false
+						}
+						if ex, ok := cond.(*ssa.Extract); ok && ex.Index == 1 {
+							if lk, ok := ex.Tuple.(*ssa.Lookup); ok && isSCMap(lk.X) == mf && core.GuardedBy(iff, !arm, at) {
+								return true
+							}
+						}
+					}
+					return false
+				}
+				sites, all := 0, true
+				for _, g := range arrowRecordFuncs(p) {
+					for _, host := range core.WithClosures(g) {
+						core.EachCall(host, func(ci ssa.CallInstruction) {
+							if ci.Common().StaticCallee() == fn {
+								sites++
+								if !missAt(host, ci) {
+									all = false
+								}
+							}
+						})
+					}
+				}
+				if sites > 0 && all && fn.Parent() == nil {
+					onMiss = true
+				}
+			}
 			var msgs []string
 			if !onMiss {
 				msgs = append(msgs, "not under the miss of a lookup of the incoming schema id (no new stream is being installed)")
